@@ -512,7 +512,7 @@ impl Session {
         let stop = AtomicBool::new(false);
         let known_sigs: HashSet<String> =
             self.known.iter().filter(|k| k.property == part.id && k.status == "known").map(|k| k.signature.clone()).collect();
-        let crash_path = self.args.verif_dir.join("replays").join(part.id).join(format!("current-{}.json", part.part));
+        let crash_path = self.args.verif_dir.join("replays").join(part.id).join(format!("current-{}-s{}.json", part.part, self.args.shard.0));
         if part.crash_guard {
             let _ = std::fs::create_dir_all(crash_path.parent().unwrap());
         }
